@@ -181,11 +181,11 @@ def run(ctx):
             ctx.model_check("MC_PrimitiveSetHist", "MC_PrimitiveSetHist", timeout=7200,
                             stage="M:rotation histories (KeysetManager), <=3 entries, external handles <=2 keys, 9 classes")
         else:
-            # (8 workers: a 16-slot request starves on a shared machine; these runs take seconds)
-            ctx.model_check("MC_PrimitiveSet", "MC_PrimitiveSet_quick", stage="M:all keysets <=3 keys, full implementation", timeout=3600, workers=8)
-            ctx.model_check("MC_PrimitiveSetHist", "MC_PrimitiveSetHist_quick", timeout=3600, workers=8,
+            # (few workers: a 16-slot request starves on a shared machine; these runs take seconds of CPU)
+            ctx.model_check("MC_PrimitiveSet", "MC_PrimitiveSet_quick", stage="M:all keysets <=3 keys, full implementation", timeout=3600, workers=4)
+            ctx.model_check("MC_PrimitiveSetHist", "MC_PrimitiveSetHist_quick", timeout=3600, workers=4,
                             stage="M:rotation histories (KeysetManager), <=2 entries, external handles 1 key, 5 mechanism shapes")
-        ctx.model_check("MC_PrimitiveSet", "MC_PrimitiveSet_shared", stage="M:shared key material, <=2 keys, both implementations", timeout=3600, workers=8)
+        ctx.model_check("MC_PrimitiveSet", "MC_PrimitiveSet_shared", stage="M:shared key material, <=2 keys, both implementations", timeout=3600, workers=4)
     drv = ctx.go_build("c05")
     empty = os.path.join(ctx.scratch, "empty.ndjson")
     open(empty, "w").close()
